@@ -200,7 +200,8 @@ static void spherical(unsigned long long& unit)
 						if(plusz)
 						{
 							Vector w = Spherical_Coordinates(r, th, ph);
-							if(!(mc::same_bits(w[0], v[0]) && mc::same_bits(w[1], v[1]) && mc::same_bits(w[2], v[2]))) fail("spherical_axis", key, "axis_plus_z_differs_from_plain", "axis +z must give the plain spherical coordinates bit for bit");
+							// (the same vector to rounding: the statement does not promise identical bits between the two overloads)
+							if(!(std::fabs(w[0] - v[0]) <= 8 * mc::U_ * r && std::fabs(w[1] - v[1]) <= 8 * mc::U_ * r && std::fabs(w[2] - v[2]) <= 8 * mc::U_ * r)) fail("spherical_axis", key, "axis_plus_z_differs_from_plain", "axis +z must give the plain spherical coordinates (to rounding)");
 						}
 					}
 					// exact azimuth: with e1 the direction of v(phi=0) perpendicular to n and e2 = n x e1,
@@ -276,7 +277,8 @@ static void spherical(unsigned long long& unit)
 					cases++;
 					double e[3] = {r * std::sin(th) * std::cos(ph), r * std::sin(th) * std::sin(ph), r * std::cos(th)};
 					std::string key = "plain;r=" + mc::dec(r) + ";theta=" + mc::dec(th) + ";phi=" + mc::dec(ph);
-					if(!(mc::same_bits(v[0], e[0]) && mc::same_bits(v[1], e[1]) && mc::same_bits(v[2], e[2]))) fail("spherical_plain", key, "closed_form_differs", "not (r sin t cos p, r sin t sin p, r cos t)");
+					// to rounding: any association of the three factors is within 3u of the product
+				if(!(std::fabs(v[0] - e[0]) <= 4 * mc::U_ * r && std::fabs(v[1] - e[1]) <= 4 * mc::U_ * r && std::fabs(v[2] - e[2]) <= 4 * mc::U_ * r)) fail("spherical_plain", key, "closed_form_differs", "not (r sin t cos p, r sin t sin p, r cos t)");
 					if(th > 1e-3 && th < M_PI - 1e-3)
 					{
 						double an = Angle(v, Vector({0, 0, 2.5}));
@@ -301,7 +303,7 @@ static void spherical(unsigned long long& unit)
 					std::string key = "angle;v=" + mc::dec(v[0]) + "," + mc::dec(v[1]) + "," + mc::dec(v[2]) + ";w=" + mc::dec(w[0]) + "," + mc::dec(w[1]) + "," + mc::dec(w[2]);
 					if(!(an >= 0 && an <= M_PI)) fail("angle", key, "angle_not_in_0_pi", "Angle = " + mc::dec(an));
 					else if(!(fabsl(cosl((ld)an) - cr) <= 8 * mc::U_)) fail("angle", key, "angle_wrong", "cos(Angle) = " + mc::dec(std::cos(an)) + " expected " + mc::dec((double)cr));
-					if(!mc::same_bits(an, Angle(w, v))) fail("angle", key, "angle_not_symmetric", "Angle(v,w) != Angle(w,v)");
+					if(!(std::fabs(an - Angle(w, v)) <= 4 * mc::U_ * M_PI)) fail("angle", key, "angle_not_symmetric", "Angle(v,w) != Angle(w,v)");
 				}
 	}
 	mc::count("spherical_cases", cases);
